@@ -180,11 +180,11 @@ Theorem seed_handed_tile_refetched : forall Q m ev sc members skip s t h a s' r,
 Proof. exact seed_handed_refetched. Qed.
 
 (* A request that waits for its tile lock while another request completes (load_after: `other` runs between the
-   first check and the first lock of `coords`).  Single tile path, back-ends whose re-check reads the current time
-   stamp (file caches): the re-check under the lock observes the refreshed tile - a tile that the other request
-   left accepted is not fetched again and stays accepted. *)
+   first check and the first lock of `coords`).  Single tile path, every back-end: the re-check under the lock
+   observes the refreshed tile - a tile that the other request left accepted is not fetched again and stays
+   accepted. *)
 Theorem recheck_under_lock_observes_refresh : forall Q m ev sc members s0 coords other a,
-  m_meta m = false -> recheck_uses_loaded m = false ->
+  m_meta m = false ->
   let s1 := fst (load_tile_coords Q m ev sc members s0 other) in
   let s' := fst (load_after Q m ev sc members s0 coords other) in
   tm_is_cached Q m ev (s_cache s1) a = Some true ->
@@ -192,17 +192,6 @@ Theorem recheck_under_lock_observes_refresh : forall Q m ev sc members s0 coords
   exists new, s_log s' = new ++ s_log s1 /\ (forall entry, In entry new -> ~ In a entry) /\
               tm_is_cached Q m ev (s_cache s') a = Some true.
 Proof. exact recheck_observes_refresh. Qed.
-
-(* The back-end hypothesis is needed: mbtiles / sqlite caches re-check with the time stamp loaded before the wait
-   and fetch the refreshed tile again (finding C13-sqlite-recheck). *)
-Theorem recheck_uses_loaded_refetches :
-  exists Q m ev sc members s0 coords other a,
-    m_meta m = false /\ recheck_uses_loaded m = true /\
-    let s1 := fst (load_tile_coords Q m ev sc members s0 other) in
-    let s' := fst (load_after Q m ev sc members s0 coords other) in
-    tm_is_cached Q m ev (s_cache s1) a = Some true /\
-    s_log s' = [a] :: s_log s1.
-Proof. exact recheck_uses_loaded_refetches_refuted. Qed.
 
 (* Also under such interleavings nothing is lost, and nothing changes while the upstream gives no cacheable answer
    (history_never_deletes / history_upstream_down_cache_constant range over ERace events as well). *)
